@@ -106,7 +106,17 @@ func runC25(r *Report) {
 				if st, ok := a.Instr.(*ssa.Store); ok {
 					if k, isc := st.Val.(*ssa.Const); isc && k.Value != nil && k.Value.String() == "true" {
 						if len(ls.At(a.Site)) == 1 {
-							if okp, _ := MustPassFromEntry(rel, func(in ssa.Instruction) bool { return in == a.Instr }); okp {
+							// on every path on which the client was not marked yet (an early return for an
+							// already marked client has nothing to set)
+							okp := MustPassOrEdge(Site{rel, rel.Blocks[0], -1, nil}, func(in ssa.Instruction) bool { return in == a.Instr }, func(from *ssa.BasicBlock, succ int) bool {
+								iff, isif := from.Instrs[len(from.Instrs)-1].(*ssa.If)
+								if !isif {
+									return false
+								}
+								g := normGuard(Guard{iff.Cond, succ == 0, from})
+								return g.Pol && IsFieldLoad(g.Cond, "rueidis.dedicatedClusterClient", "mark")
+							})
+							if okp {
 								setMark = true
 							}
 						}
